@@ -62,8 +62,10 @@ func VerifH_C15_wayApply() {
 	for _, x := range us {
 		w.Updates = append(w.Updates, x.u)
 	}
+	given := w.Updates // the caller's list (its backing array may be shared with copies of the way)
 	err := w.ApplyUpdatesUpTo(t)
 	vReach("applied")
+	vAssert(vSame(given, Updates(usList(us))), "callers-update-list-not-rewritten")
 
 	// first applicable update with an index beyond the list
 	bad := -1
@@ -216,9 +218,14 @@ func VerifH_C15_lineStringAt() {
 		vAssume(vAnd(us[j].u.Index < n, us[j].u.Version >= 1))
 	}
 	_, t := c15Time("t")
-	w := &Way{ID: 1, Nodes: append(WayNodes{}, nodes...), Updates: usList(us)}
+	_, wts := c15Time("wayTimestamp")
+	w := &Way{ID: 1, Timestamp: wts, Nodes: append(WayNodes{}, nodes...), Updates: usList(us)}
+	if vRange("committed", 0, 1) == 1 {
+		_, wc := c15Time("wayCommitted")
+		w.Committed = &wc
+	}
 	got := w.LineStringAt(t)
-	cp := &Way{ID: 1, Nodes: append(WayNodes{}, nodes...), Updates: usList(us)}
+	cp := &Way{ID: 1, Timestamp: wts, Committed: w.Committed, Nodes: append(WayNodes{}, nodes...), Updates: usList(us)}
 	err := cp.ApplyUpdatesUpTo(t)
 	want := cp.LineString()
 	vReach("computed")
